@@ -178,6 +178,10 @@ func enameOf(err error) string {
 	if errors.As(err, &re) {
 		return re.Ename
 	}
+	var rp *p9p.MessageRerror
+	if errors.As(err, &rp) && rp != nil {
+		return rp.Ename
+	}
 	return err.Error()
 }
 
